@@ -6,7 +6,7 @@ token and is renamed by first appearance over the whole trace, exactly as in Obs
 
 import re
 
-UUID_RE = re.compile(r"^[0-9a-f]{8}-[0-9a-f]{4}-[0-9a-f]{4}-[0-9a-f]{4}-[0-9a-f]{12}$")
+UUID_RE = re.compile(r"^[0-9a-f]{8}-[0-9a-f]{4}-[0-9a-f]{4}-[0-9a-f]{4}-[0-9a-f]{12}\Z")
 HP = 2305843009213693951
 HB = 1000003
 OPEN, CLOSE, ERR = -1, -2, -3
